@@ -129,6 +129,12 @@ def gen(rng, tier):
         plus = (sum(map(ord, "".join(a + b))) & 1) if tier == "quick" else None
         for pl in ((plus,) if plus is not None else (0, 1)):
             cases.append(dict(line="wf plus=%d deps=ok objs=min:%s;min:%s" % (pl, ":".join(a), ":".join(b)), tags=["minimal-pair", a[0] + "+" + b[0]]))
+    # cross-namespace delegation: a route in another namespace with a policy of its own + a same-named VirtualServer there
+    for plus in (0, 1):
+        for ns1, ns2 in (("a", "b"), ("a-b", "c"), ("b", "a")):
+            for name in ("web", "a-b"):
+                for kind in ("rl", "rlkey"):
+                    cases.append(dict(line="wf plus=%d deps=ok objs=xd:%s:%s:%s:%s" % (plus, ns1, ns2, name, kind), tags=["cross-namespace-delegation"]))
     # triples (a third resource shifts return-location / split indices)
     for _ in range(100 if tier == "quick" else 2000):
         t = [rng.choice(items) for _ in range(3)]
